@@ -37,8 +37,8 @@ func init() {
 		Run: ruleClientFinishOrder,
 	})
 	register(&Rule{
-		Name: "settings-copy-complete", Props: []string{"C18"}, Engine: "AST", Floor: 9,
-		Doc: "Settings.CopyTo copies every field: the received frame's values (and presence markers) reach the connection's copy",
+		Name: "settings-copy-complete", Props: []string{"C18", "C03", "C04"}, Engine: "AST", Floor: 12,
+		Doc: "Settings.CopyTo and HeaderField.CopyTo copy every field, whole: the received SETTINGS values (and presence markers) reach the connection's copy, and an HPACK dynamic-table entry is the field that was inserted (name, value, sensitivity)",
 		Run: ruleSettingsCopy,
 	})
 }
@@ -530,18 +530,27 @@ func ruleClientFinishOrder(p *Prog, r *Out) {
 }
 
 func ruleSettingsCopy(p *Prog, r *Out) {
-	fd := p.decl("(*Settings).CopyTo")
-	tn, _ := p.Pkg.Scope().Lookup("Settings").(*types.TypeName)
+	// Settings: the connection's record of the peer's SETTINGS; HeaderField: the
+	// HPACK dynamic table's insert and lookup both go through CopyTo
+	for _, tname := range []string{"Settings", "HeaderField"} {
+		ruleCopyComplete(p, r, tname)
+	}
+}
+
+func ruleCopyComplete(p *Prog, r *Out, tname string) {
+	fd := p.decl("(*" + tname + ").CopyTo")
+	tn, _ := p.Pkg.Scope().Lookup(tname).(*types.TypeName)
 	if fd == nil || tn == nil {
-		r.undecided("Settings.CopyTo", "?", "no longer resolves")
+		r.undecided(tname+".CopyTo", "?", "no longer resolves")
 		return
 	}
-	r.fn("(*Settings).CopyTo")
+	r.fn("(*" + tname + ").CopyTo")
 	dst := ""
 	if len(fd.Type.Params.List) == 1 && len(fd.Type.Params.List[0].Names) == 1 {
 		dst = fd.Type.Params.List[0].Names[0].Name
 	}
 	copied := map[string]string{}
+	whole := map[string]bool{}
 	for _, s := range fd.Body.List {
 		as, ok := s.(*ast.AssignStmt)
 		if !ok || len(as.Lhs) != 1 {
@@ -563,12 +572,18 @@ func ruleSettingsCopy(p *Prog, r *Out) {
 				return true
 			})
 			copied[f] = src
+			// a slice field is replaced, not extended: append(dst.f[:0], src.f...)
+			whole[f] = true
+			if c, ok := as.Rhs[0].(*ast.CallExpr); ok && p.calleeOf(c) == "builtin.append" {
+				_, _, hi, okb := p.sliceBounds(c.Args[0])
+				whole[f] = okb && hi == 0 && c.Ellipsis.IsValid()
+			}
 		}
 	}
 	st := tn.Type().Underlying().(*types.Struct)
 	for i := 0; i < st.NumFields(); i++ {
 		f := st.Field(i).Name()
-		r.check(copied[f] == f, "copies "+f, p.pos(fd.Pos()), "dst."+f+" = src."+f, fmt.Sprintf("Settings.CopyTo sets %s from %q: the connection's copy of the peer's SETTINGS does not carry the received %s", f, copied[f], f))
+		r.check(copied[f] == f && whole[f], tname+" copies "+f, p.pos(fd.Pos()), "dst."+f+" = src."+f, fmt.Sprintf("%s.CopyTo sets %s from %q (whole value: %v): the copy does not carry the source's %s", tname, f, copied[f], whole[f], f))
 	}
 }
 
